@@ -731,6 +731,18 @@ pub fn prefix(name: &str) -> Vec<Op> {
         ]),
         // the meta keyspace holds the highest seqnos: keyspaces created and deleted last, little user data
         "meta_highest" => p(&["ins x.a=1", "create z", "delete z", "create z", "delete y"]),
+        // two sealed journals pinned by the lagging y, plus z with unflushed data (C12: deleting x must not free them)
+        "two_sealed_journals_z" => p(&[
+            "ins y.a=1",
+            "ins x.a=1",
+            "rotate x",
+            "step+jrot WorkerMessage:Flush",
+            "ins x.a=2",
+            "rotate x",
+            "step+jrot WorkerMessage:Flush",
+            "create z",
+            "ins z.a=1",
+        ]),
         other => panic!("unknown prefix {other}"),
     }
 }
